@@ -35,7 +35,10 @@ Record Inv (st : state) : Prop := mkInv {
       exists s l, slookup g (funcs st) = Some s /\ hget st a = Some l /\ hget st s = Some l /\
                   (slookup g (lambdas st) = Some s -> a = s);
   inv_lams : forall f c, slookup f (lambdas st) = Some c ->
-      (exists s, slookup f (funcs st) = Some s) /\ exists l, hget st c = Some l /\ l_name l = f
+      (exists s, slookup f (funcs st) = Some s) /\ exists l, hget st c = Some l /\ l_name l = f;
+  (* the Lambda a name's creator hands out IS the registered one (repo_fixes/C08-3); with inv_marks: every
+     compiled call of a name holds the one Lambda that every later definition updates *)
+  inv_canon : forall f s, slookup f (funcs st) = Some s -> slookup f (lambdas st) = Some s
 }.
 
 Lemma Inv_init : Inv init.
@@ -70,7 +73,7 @@ Proof.
 Qed.
 Lemma good_set_out : forall st o, good st (set_out st o).
 Proof.
-  intros. split; [repeat split|]. intros [a b c]. constructor; simpl; auto.
+  intros. split; [repeat split|]. intros [a b c d]. constructor; simpl; auto.
 Qed.
 
 Lemma resolve_cd : forall st g f a, resolve st g = Some (CD f a) -> f = g /\ slookup g (funcs st) = Some a.
@@ -81,7 +84,7 @@ Qed.
 Lemma good_set_mark : forall st0 st id g c, same_tabs st0 st -> resolve st0 g = Some c -> good st (set_mark st id c).
 Proof.
   intros st0 st id g c [h0 [l0 f0]] R. split; [repeat split|].
-  intros [a b d]. constructor; simpl; auto.
+  intros [a b d cn]. constructor; simpl; auto.
   intros id' g' a'. destruct (Nat.eqb id' id); [|apply b].
   intros E. inversion E; subst. apply resolve_cd in R. destruct R as [-> R].
   rewrite <- f0 in R. destruct (a _ _ R) as (c & l & ? & ? & ? & ?).
@@ -89,16 +92,16 @@ Proof.
 Qed.
 Lemma premark_good : forall st a st1, premark st a = Some st1 -> good st st1.
 Proof.
-  unfold premark. intros st a st1. destruct a as [| |id xs|]; try (intros E; inversion E; apply good_refl).
-  destruct xs as [|[|g| |] r]; try (intros E; inversion E; apply good_refl).
+  unfold premark. intros st a st1. destruct a as [| |id xs]; try (intros E; inversion E; apply good_refl).
+  destruct xs as [|[|g|] r]; try (intros E; inversion E; apply good_refl).
   destruct (mark_of st id g); [intros E; inversion E; apply good_refl|].
   destruct (resolve st g) eqn:R; [|discriminate]. intros E; inversion E.
   eapply good_set_mark; eauto. repeat split.
 Qed.
 Lemma deferred_resolve : forall st a id c, deferred st a = Some (id, c) -> exists g, resolve st g = Some c.
 Proof.
-  unfold deferred. intros st a id c. destruct a as [| |i xs|]; try discriminate.
-  destruct xs as [|[|g| |] r]; try discriminate.
+  unfold deferred. intros st a id c. destruct a as [| |i xs]; try discriminate.
+  destruct xs as [|[|g|] r]; try discriminate.
   destruct (mark_of st i g); [discriminate|]. destruct (resolve st g) eqn:R; [|discriminate].
   intros E; inversion E; subst. eauto.
 Qed.
@@ -233,8 +236,8 @@ Lemma evalM_good : forall n, goodP (evalM n).
 Proof.
   induction n as [|n IH]; intros st en e r st' E; simpl in E.
   - inversion E. apply good_refl.
-  - destruct e as [z|x|id xs|gx]; try (inversion E; apply good_refl).
-    destruct xs as [|[|f| |] args]; try (inversion E; apply good_refl).
+  - destruct e as [z|x|id xs]; try (inversion E; apply good_refl).
+    destruct xs as [|[|f|] args]; try (inversion E; apply good_refl).
     destruct (wrapper st id f) as [[b|g a]|]; [| |inversion E; apply good_refl].
     + destruct b;
         try (destruct (eval_args (evalM n) st en args) as [ar st1] eqn:EA;
@@ -269,16 +272,16 @@ Lemma sim1_same : forall r st, sim1 r (out st) r st.
 Proof. intros. split; auto. Qed.
 Lemma premark_out : forall st a st1, premark st a = Some st1 -> out st1 = out st.
 Proof.
-  unfold premark. intros st a st1. destruct a as [| |id xs|]; try (intros E; inversion E; auto; fail).
-  destruct xs as [|[|g| |] r]; try (intros E; inversion E; auto; fail).
+  unfold premark. intros st a st1. destruct a as [| |id xs]; try (intros E; inversion E; auto; fail).
+  destruct xs as [|[|g|] r]; try (intros E; inversion E; auto; fail).
   destruct (mark_of st id g); [intros E; inversion E; auto|].
   destruct (resolve st g); [|discriminate]. intros E; inversion E. reflexivity.
 Qed.
 Lemma premark_none : forall st a, premark st a = None ->
   exists id g r, a = SList id (SSym g :: r) /\ builtin_of g = None /\ slookup g (funcs st) = None.
 Proof.
-  unfold premark. intros st a. destruct a as [| |id xs|]; try discriminate.
-  destruct xs as [|[|g| |] r]; try discriminate.
+  unfold premark. intros st a. destruct a as [| |id xs]; try discriminate.
+  destruct xs as [|[|g|] r]; try discriminate.
   destruct (mark_of st id g); [discriminate|]. unfold resolve.
   destruct (builtin_of g) eqn:B; [discriminate|]. destruct (slookup g (funcs st)) eqn:F; [discriminate|].
   intros _. exists id, g, r. auto.
@@ -503,10 +506,10 @@ Theorem evalM_sim : forall ft n, simP n ft.
 Proof.
   intros ft. induction n as [|n IH]; intros st en e rS oS I R E; simpl in E.
   - inversion E; subst. exists OutOfFuel, st. split; auto. apply sim1_same.
-  - destruct e as [z|x|id xs|gx].
+  - destruct e as [z|x|id xs].
     + inversion E; subst. eexists _, _. split; [reflexivity|apply sim1_same].
     + inversion E; subst. eexists _, _. split; [reflexivity|apply sim1_same].
-    + destruct xs as [|[z|f|i ys|gy] args];
+    + destruct xs as [|[z|f|i ys] args];
         try (inversion E; subst; eexists _, _; split; [reflexivity|apply sim1_same]).
       simpl. destruct (builtin_of f) as [b|] eqn:B.
       * rewrite (wrapper_builtin st id f b B).
@@ -579,18 +582,16 @@ Proof.
            destruct NV as (rM & st' & EQ & NV). exists rM, st'. split.
            ++ destruct (wrapper st id f) as [[[]|g a]|]; exact EQ.
            ++ split; [discriminate|auto].
-    + inversion E; subst. eexists _, _. split; [reflexivity|apply sim1_same].
 Qed.
 
 (* ---- compilation (CompileList / placeholders) keeps the invariant and defines nothing ------------- *)
 Fixpoint sexp_ind2 (P : sexp -> Prop) (hI : forall z, P (SInt z)) (hS : forall x, P (SSym x))
-  (hL : forall id xs, Forall P xs -> P (SList id xs)) (hG : forall x, P (SGlob x)) (e : sexp) : P e :=
+  (hL : forall id xs, Forall P xs -> P (SList id xs)) (e : sexp) : P e :=
   match e with
   | SInt z => hI z
   | SSym x => hS x
   | SList id xs => hL id xs ((fix go (l : list sexp) : Forall P l :=
-                               match l with [] => Forall_nil P | x :: r => Forall_cons x (sexp_ind2 P hI hS hL hG x) (go r) end) xs)
-  | SGlob x => hG x
+                               match l with [] => Forall_nil P | x :: r => Forall_cons x (sexp_ind2 P hI hS hL x) (go r) end) xs)
   end.
 
 Record cg (st st' : state) : Prop := mkCg {
@@ -660,6 +661,7 @@ Proof.
       * apply String.eqb_eq in Q. subst f'. intros E; inversion E; subst c. split; eauto.
       * intros E. destruct (inv_lams _ I _ _ E) as [S1 (l & ? & ?)]. split; auto.
         exists l. split; auto.
+    + intros f' s. destruct (String.eqb f' f) eqn:Q; [auto|apply (inv_canon _ I)].
   - unfold hget; simpl. intros. apply HO; auto.
   - rewrite app_length. simpl. lia.
   - intros f' s E. destruct (String.eqb f' f) eqn:Q; auto.
@@ -686,8 +688,8 @@ Qed.
 
 Lemma compile_list_cgood : forall e st, cgood st (compile_list st e).
 Proof.
-  induction e as [z|x|id xs IH|gx] using sexp_ind2; intros st; try apply cgood_refl.
-  destruct xs as [|[z|f|i ys|gy] args]; try apply cgood_refl.
+  induction e as [z|x|id xs IH] using sexp_ind2; intros st; try apply cgood_refl.
+  destruct xs as [|[z|f|i ys] args]; try apply cgood_refl.
   simpl. destruct (resolve_or_place st f) as [c st1] eqn:RP.
   destruct (resolve_or_place_spec _ _ _ _ RP) as [G1 R1].
   assert (G2 : cgood st (set_mark st1 id c)).
@@ -698,7 +700,7 @@ Proof.
   inversion IHargs as [|? ? Pa Prest]; subst.
   apply IHr; auto.
   destruct (strict_at c i); auto.
-  destruct a as [| |j ys|]; auto.
+  destruct a as [| |j ys]; auto.
   destruct (marked st2 (SList j ys)); auto.
   eapply cgood_trans; [exact G2|apply Pa].
 Qed.
@@ -724,56 +726,32 @@ Proof.
 Qed.
 
 (* ---- defun ---------------------------------------------------------------------------------------- *)
-Lemma sexp_eqb_eq : forall x y, sexp_eqb x y = true -> x = y.
-Proof.
-  induction x as [z|s|id xs IH|gx] using sexp_ind2; destruct y as [z'|s'|id' ys|gy]; simpl; try discriminate.
-  - intros H. apply Z.eqb_eq in H. congruence.
-  - intros H. apply String.eqb_eq in H. congruence.
-  - intros H. apply andb_true_iff in H. destruct H as [H1 H2]. apply Nat.eqb_eq in H1. subst id'.
-    f_equal. revert ys H2. induction IH as [|x xs Px _ IHxs]; destruct ys as [|y ys]; try discriminate; auto.
-    intros H. apply andb_true_iff in H. destruct H as [Ha Hb]. f_equal; auto.
-  - intros H. apply String.eqb_eq in H. congruence.
-Qed.
-Lemma sexps_eqb_eq : forall xs ys, sexps_eqb xs ys = true -> xs = ys.
-Proof.
-  induction xs as [|x xs IH]; destruct ys as [|y ys]; simpl; try discriminate; auto.
-  intros H. apply andb_true_iff in H. destruct H as [Ha Hb]. f_equal; auto using sexp_eqb_eq.
-Qed.
-Lemma strs_eqb_eq : forall xs ys, strs_eqb xs ys = true -> xs = ys.
-Proof.
-  induction xs as [|x xs IH]; destruct ys as [|y ys]; simpl; try discriminate; auto.
-  intros H. apply andb_true_iff in H. destruct H as [Ha Hb]. apply String.eqb_eq in Ha. f_equal; auto.
-Qed.
-Lemma lam_eqb_def_eq : forall l name ps body, lam_eqb_def l name ps body = true -> l = mkLam name ps body false.
-Proof.
-  intros [nm p f pl] name ps body. unfold lam_eqb_def. simpl. intros H.
-  apply andb_true_iff in H. destruct H as [H H4]. apply andb_true_iff in H. destruct H as [H H3].
-  apply andb_true_iff in H. destruct H as [H1 H2].
-  apply String.eqb_eq in H2. apply strs_eqb_eq in H3. apply sexps_eqb_eq in H4.
-  destruct pl; [discriminate|]. congruence.
-Qed.
-
 Lemma hget_lt : forall st a l, hget st a = Some l -> a < List.length (heap st).
 Proof. unfold hget. intros. apply nth_error_Some. congruence. Qed.
 
-Theorem defunM_step : forall st ft name ps body, Inv st -> Rel st ft -> g_defun st name ps body = true ->
+Lemma alloc_cg : forall st l, Inv st -> cg st (mkSt (heap st ++ [l]) (lambdas st) (funcs st) (marks st) (out st)).
+Proof.
+  intros st l I. constructor; simpl; auto.
+  - destruct I as [i1 i2 i3 i4]. constructor; unfold hget; simpl; auto.
+    + intros f s E. destruct (i1 _ _ E) as (c & l0 & ? & ? & ? & ?). exists c, l0.
+      repeat split; auto; apply nth_error_app_old; auto.
+    + intros id g a' N. destruct (i2 _ _ _ N) as (s & l0 & ? & ? & ? & ?). exists s, l0.
+      repeat split; auto; apply nth_error_app_old; auto.
+    + intros f c E. destruct (i3 _ _ E) as [S1 (l0 & ? & ?)]. split; auto. exists l0. split; auto.
+      apply nth_error_app_old; auto.
+  - unfold hget; simpl. intros. apply nth_error_app_old; auto.
+  - rewrite app_length; simpl; lia.
+Qed.
+(* a definition - first or repeated, of a name that has been called before or not - keeps the invariant and
+   gives the name exactly that definition; no guard: the creator it installs hands out the registered Lambda *)
+Theorem defunM_step : forall st ft name ps body, Inv st -> Rel st ft ->
   Inv (defunM st name ps body) /\ Rel (defunM st name ps body) ((name, (ps, body)) :: ft) /\
   out (defunM st name ps body) = out st.
 Proof.
-  intros st ft name ps body I R G.
+  intros st ft name ps body I R.
   set (a := List.length (heap st)). set (newl := mkLam name ps body false).
   set (st1 := mkSt (heap st ++ [newl]) (lambdas st) (funcs st) (marks st) (out st)).
-  assert (C1 : cg st st1).
-  { constructor; simpl; auto.
-    - destruct I as [i1 i2 i3]. constructor; unfold hget; simpl.
-      + intros f s E. destruct (i1 _ _ E) as (c & l & ? & ? & ? & ?). exists c, l.
-        repeat split; auto; apply nth_error_app_old; auto.
-      + intros id g a' N. destruct (i2 _ _ _ N) as (s & l & ? & ? & ? & ?). exists s, l.
-        repeat split; auto; apply nth_error_app_old; auto.
-      + intros f c E. destruct (i3 _ _ E) as [S1 (l & ? & ?)]. split; auto. exists l. split; auto.
-        apply nth_error_app_old; auto.
-    - unfold hget; simpl. intros. apply nth_error_app_old; auto.
-    - rewrite app_length; simpl; lia. }
+  assert (C1 : cg st st1) by (apply alloc_cg; exact I).
   set (st2 := fold_left compile_slot body st1).
   pose proof (fold_compile_cgood body st1 (cg_inv _ _ C1)) as C2. fold st2 in C2.
   pose proof (cg_inv _ _ C2) as I2.
@@ -782,45 +760,22 @@ Proof.
   assert (DEF : forall f, def_of st2 f = def_of st f).
   { intros f. rewrite (cg_def_of _ _ (cg_inv _ _ C1) C2). apply (cg_def_of _ _ I C1). }
   assert (OUT : out st2 = out st) by (rewrite (cg_out _ _ C2); reflexivity).
-  (* the guard, transported to the state after the body was compiled *)
-  assert (G2 : slookup name (funcs st2) = None \/
-               (exists s, slookup name (funcs st2) = Some s /\ slookup name (lambdas st2) = Some s /\ s <> a) \/
-               (exists s, slookup name (funcs st2) = Some s /\ hget st2 s = Some newl)).
-  { unfold g_defun in G. destruct (slookup name (funcs st)) as [s0|] eqn:F0.
-    - apply orb_true_iff in G. destruct G as [G|G].
-      + destruct (slookup name (lambdas st)) as [c0|] eqn:L0; [|discriminate].
-        apply Nat.eqb_eq in G. subst c0. right; left. exists s0. repeat split.
-        * apply (cg_funcs _ _ C2). apply (cg_funcs _ _ C1). auto.
-        * apply (cg_lams _ _ C2). apply (cg_lams _ _ C1). auto.
-        * destruct (inv_lams _ I _ _ L0) as [_ (l & Hl & _)]. apply hget_lt in Hl. unfold a. lia.
-      + destruct (nth_error (heap st) s0) as [l|] eqn:H0; [|discriminate].
-        apply lam_eqb_def_eq in G. subst l. right; right. exists s0. split.
-        * apply (cg_funcs _ _ C2). apply (cg_funcs _ _ C1). auto.
-        * apply (cg_heap _ _ C2). apply (cg_heap _ _ C1). exact H0.
-    - destruct (cg_new _ _ C2 name) as [N|(p & l & F2 & L2 & Hp & PL)]; [exact F0|auto|].
-      right; left. exists p. repeat split; auto.
-      intros ->. rewrite HA in Hp. inversion Hp; subst l. discriminate. }
   unfold defunM. fold a newl st1 st2.
   destruct (slookup name (lambdas st2)) as [c|] eqn:LN.
-  - (* the name has a registered Lambda: patched in place *)
+  - (* the name has a registered Lambda: it takes the definition over and the creator hands it out *)
     destruct (inv_lams _ I2 _ _ LN) as [[s FS] (lc & Hc & NC)].
+    assert (SC : s = c) by (pose proof (inv_canon _ I2 _ _ FS) as X; congruence). subst s.
     assert (CA : c <> a).
-    { destruct G2 as [N|[(s' & F' & L' & NA)|(s' & F' & H')]]; [congruence|congruence|].
-      (* same contents: the registered address is older than a, or a placeholder *)
-      intros ->. destruct (slookup name (lambdas st)) as [c0|] eqn:L0.
-      - pose proof (cg_lams _ _ C2 _ _ (cg_lams _ _ C1 _ _ L0)) as L2. rewrite LN in L2. inversion L2; subst c0.
-        destruct (inv_lams _ I _ _ L0) as [_ (l & Hl & _)]. apply hget_lt in Hl. unfold a in Hl. lia.
-      - assert (F0 : slookup name (funcs st) = None).
-        { destruct (slookup name (funcs st)) as [s0|] eqn:F0; auto.
-          destruct (inv_funcs _ I _ _ F0) as (c0 & ? & L & _). congruence. }
-        destruct (cg_new _ _ C2 name F0) as [N|(p & l & F2 & L2 & Hp & PL)]; [congruence|].
+    { (* the registered address is older than a, or a placeholder made while the body was compiled *)
+      intros ->. destruct (slookup name (funcs st)) as [s0|] eqn:F0.
+      - pose proof (cg_funcs _ _ C2 _ _ (cg_funcs _ _ C1 _ _ F0)) as F2. rewrite FS in F2. inversion F2; subst s0.
+        destruct (inv_funcs _ I _ _ F0) as (c0 & l & _ & Hl & _). apply hget_lt in Hl. unfold a in Hl. lia.
+      - destruct (cg_new _ _ C2 name F0) as [N|(p & l & F2 & L2 & Hp & PL)]; [congruence|].
         rewrite LN in L2. inversion L2; subst p. rewrite HA in Hp. inversion Hp; subst l. discriminate. }
     set (hp := set_nth (heap st2) c newl).
     assert (HC : nth_error hp c = Some newl) by (apply set_nth_same; eapply hget_lt; eauto).
     assert (HO : forall x l, hget st2 x = Some l -> l_name l <> name -> nth_error hp x = Some l).
     { intros x l Hx NN. unfold hp. rewrite set_nth_other; auto. intros ->. rewrite Hc in Hx. congruence. }
-    assert (HN : forall x, hget st2 x = Some newl -> nth_error hp x = Some newl).
-    { intros x Hx. destruct (Nat.eq_dec c x) as [->|NE]; auto. unfold hp. rewrite set_nth_other; auto. }
     split; [|split; [|exact OUT]].
     + constructor; unfold hget; simpl.
       * intros f s'. destruct (String.eqb f name) eqn:Q.
@@ -832,11 +787,8 @@ Proof.
       * intros id g a' N. destruct (inv_marks _ I2 _ _ _ N) as (s' & l & F' & Ha' & Hs' & K).
         destruct (String.eqb g name) eqn:Q.
         -- apply String.eqb_eq in Q. subst g. rewrite FS in F'. inversion F'; subst s'.
-           exists a, newl. repeat split; auto.
-           ++ destruct G2 as [N0|[(s' & F2 & L2 & NA)|(s' & F2 & H2)]]; [congruence| |].
-              ** rewrite FS in F2. inversion F2; subst s'. inversion L2; subst c. rewrite (K LN). exact HC.
-              ** rewrite FS in F2. inversion F2; subst s'. rewrite H2 in Hs'. inversion Hs'; subst l. auto.
-           ++ intros E. congruence.
+           assert (a' = c) by (apply K; exact LN). subst a'.
+           exists c, newl. repeat split; auto.
         -- destruct (inv_funcs _ I2 _ _ F') as (c' & l' & _ & Hs2 & _ & NM).
            rewrite Hs' in Hs2. inversion Hs2; subst l'.
            assert (l_name l <> name) by (intros X; rewrite X in NM; subst g; rewrite String.eqb_refl in Q; discriminate).
@@ -846,8 +798,11 @@ Proof.
         -- apply String.eqb_eq in Q. subst f. assert (c' = c) by congruence. subst c'. split; eauto.
         -- split; [eauto|]. exists l. split; auto. apply HO; auto.
            intros X; rewrite X in NM; subst f; rewrite String.eqb_refl in Q; discriminate.
+      * intros f s'. destruct (String.eqb f name) eqn:Q.
+        -- apply String.eqb_eq in Q. subst f. intros E; inversion E; subst s'. exact LN.
+        -- apply (inv_canon _ I2).
     + intros f. unfold def_of, hget. simpl. destruct (String.eqb f name) eqn:Q.
-      * rewrite (HN a HA). reflexivity.
+      * rewrite HC. reflexivity.
       * rewrite <- R, <- DEF. unfold def_of.
         destruct (slookup f (funcs st2)) as [s'|] eqn:F'; auto.
         destruct (inv_funcs _ I2 _ _ F') as (c' & l & _ & Hs' & _ & NM).
@@ -869,6 +824,7 @@ Proof.
       * intros f c. destruct (String.eqb f name) eqn:Q.
         -- apply String.eqb_eq in Q. subst f. intros E; inversion E; subst c. split; eauto.
         -- apply (inv_lams _ I2).
+      * intros f s. destruct (String.eqb f name) eqn:Q; [auto|apply (inv_canon _ I2)].
     + intros f. unfold def_of, hget. simpl. destruct (String.eqb f name) eqn:Q.
       * fold (hget st2 a). rewrite HA. reflexivity.
       * rewrite <- R, <- DEF. reflexivity.
@@ -880,25 +836,16 @@ Definition HInv (m : mstate) (s : sstate) : Prop :=
 Definition osim (oS oM : obs) : Prop :=
   (comparable (fst oS) = true -> oM = oS) /\ (is_val (fst oS) = false -> is_val (fst oM) = false).
 
-Lemma globalize_guarded : forall ps body gv, g_body gv ps body = true -> globalize_body gv ps body = (body, gv).
-Proof.
-  intros ps. induction body as [|f r IH]; simpl; intros gv G; auto.
-  apply andb_true_iff in G. destruct G as [G1 G2].
-  destruct f as [z|x|id xs|gx]; try (rewrite (IH gv G2); reflexivity).
-  rewrite G1. rewrite (IH gv G2). reflexivity.
-Qed.
-Lemma run_forms_sim : forall n fs st ft gv v, Inv st -> Rel st ft -> guard_forms n st gv fs = true ->
+Lemma run_forms_sim : forall n fs st ft gv v, Inv st -> Rel st ft ->
   exists rM st', run_forms n st gv fs v = (rM, st', snd (run_formsS n ft gv (out st) fs v)) /\
     sim1 (fst (fst (fst (run_formsS n ft gv (out st) fs v)))) (snd (fst (fst (run_formsS n ft gv (out st) fs v)))) rM st' /\
     Inv st' /\ Rel st' (snd (fst (run_formsS n ft gv (out st) fs v))).
 Proof.
-  intros n. induction fs as [|t r IH]; simpl; intros st ft gv v I R G.
+  intros n. induction fs as [|t r IH]; simpl; intros st ft gv v I R.
   - eexists _, _. split; [reflexivity|]. split; [apply sim1_same|auto].
   - destruct t as [e|nm]; [|apply IH; auto].
     destruct (parse_defun e) as [[[nm ps] body]|] eqn:PD.
-    + apply andb_true_iff in G. destruct G as [G0 G2]. apply andb_true_iff in G0. destruct G0 as [GB G1].
-      rewrite (globalize_guarded ps body gv GB). simpl.
-      destruct (defunM_step st ft nm ps body I R G1) as (I' & R' & O'). rewrite <- O'. apply IH; auto.
+    + destruct (defunM_step st ft nm ps body I R) as (I' & R' & O'). rewrite <- O'. apply IH; auto.
     + destruct (parse_gdef e) as [[[always nm] z]|] eqn:PG; [apply IH; auto|].
       destruct (evalS n ft gv (out st) e) as [r1 o1] eqn:E1.
       destruct (evalM_sim ft n st gv e r1 o1 I R E1) as (rM & st1 & EM & [S1 S2]).
@@ -911,32 +858,30 @@ Proof.
           (eexists _, _; split; [reflexivity|]; split; [split; auto|split; [auto|eapply same_tabs_rel; eauto]]).
 Qed.
 
-Lemma compile_defs_sim : forall fs st ft gv, Inv st -> Rel st ft -> guard_defs st gv fs = true ->
+Lemma compile_defs_sim : forall fs st ft gv, Inv st -> Rel st ft ->
   snd (compile_defs st gv fs) = snd (compile_defsS ft gv fs) /\
   snd (fst (compile_defs st gv fs)) = snd (fst (compile_defsS ft gv fs)) /\
   Inv (fst (fst (compile_defs st gv fs))) /\
   Rel (fst (fst (compile_defs st gv fs))) (fst (fst (compile_defsS ft gv fs))) /\
   out (fst (fst (compile_defs st gv fs))) = out st.
 Proof.
-  induction fs as [|t r IH]; simpl; intros st ft gv I R G; auto.
+  induction fs as [|t r IH]; simpl; intros st ft gv I R; auto.
   destruct t as [e|nm].
   - destruct (parse_defun e) as [[[nm ps] body]|] eqn:PD.
-    + apply andb_true_iff in G. destruct G as [G0 G2]. apply andb_true_iff in G0. destruct G0 as [GB G1].
-      rewrite (globalize_guarded ps body gv GB). simpl.
-      destruct (defunM_step st ft nm ps body I R G1) as (I' & R' & O').
-      specialize (IH _ _ gv I' R' G2).
+    + destruct (defunM_step st ft nm ps body I R) as (I' & R' & O').
+      specialize (IH _ _ gv I' R').
       destruct (compile_defs (defunM st nm ps body) gv r) as [[st' gv'] r'].
       destruct (compile_defsS ((nm, (ps, body)) :: ft) gv r) as [[ft' gv''] r'']. simpl in *.
       destruct IH as (A & A2 & B & C & D). split; [congruence|split; [auto|split; [auto|split; [auto|congruence]]]].
     + destruct (parse_gdef e) as [[[always nm] z]|] eqn:PG.
-      * specialize (IH _ _ (gdef gv always nm z) I R G).
+      * specialize (IH _ _ (gdef gv always nm z) I R).
         destruct (compile_defs st (gdef gv always nm z) r) as [[st' gv'] r'].
         destruct (compile_defsS ft (gdef gv always nm z) r) as [[ft' gv''] r'']. simpl in *.
         destruct IH as (A & A2 & B & C & D). split; [congruence|split; [auto|split; [auto|split; [auto|congruence]]]].
-      * specialize (IH _ _ gv I R G). destruct (compile_defs st gv r) as [[st' gv'] r'].
+      * specialize (IH _ _ gv I R). destruct (compile_defs st gv r) as [[st' gv'] r'].
         destruct (compile_defsS ft gv r) as [[ft' gv''] r'']. simpl in *.
         destruct IH as (A & A2 & B & C & D). split; [congruence|split; [auto|split; [auto|split; [auto|congruence]]]].
-  - specialize (IH _ _ gv I R G). destruct (compile_defs st gv r) as [[st' gv'] r'].
+  - specialize (IH _ _ gv I R). destruct (compile_defs st gv r) as [[st' gv'] r'].
     destruct (compile_defsS ft gv r) as [[ft' gv''] r'']. simpl in *.
     destruct IH as (A & A2 & B & C & D). split; [congruence|split; [auto|split; [auto|split; [auto|congruence]]]].
 Qed.
@@ -951,7 +896,7 @@ Proof.
   intros f. rewrite (cg_def_of _ _ I C). apply R.
 Qed.
 
-Lemma step_sim : forall n m s o, HInv m s -> guard_op n m o = true ->
+Lemma step_sim : forall n m s o, HInv m s ->
   HInv (fst (stepM n m o)) (fst (stepS n s o)) /\
   match snd (stepS n s o), snd (stepM n m o) with
   | Some a, Some b => osim a b
@@ -959,17 +904,17 @@ Lemma step_sim : forall n m s o, HInv m s -> guard_op n m o = true ->
   | _, _ => False
   end.
 Proof.
-  intros n m s o (I & R & CE & GE) G. destruct o as [cid forms|cid|cid]; simpl in *.
+  intros n m s o (I & R & CE & GE). destruct o as [cid forms|cid|cid]; simpl in *.
   - split; auto. unfold HInv; simpl. split; [auto|split; [auto|split; [congruence|auto]]].
   - rewrite <- CE, <- GE. destruct (nlookup cid (codes m)) as [fs|]; [|split; [unfold HInv; auto|simpl; auto]].
-    destruct (compile_defs_sim fs (ms m) (sft s) (mgv m) I R G) as (A & A2 & B & C & D).
+    destruct (compile_defs_sim fs (ms m) (sft s) (mgv m) I R) as (A & A2 & B & C & D).
     destruct (compile_defs (ms m) (mgv m) fs) as [[st1 gv1] fs'].
     destruct (compile_defsS (sft s) (mgv m) fs) as [[ft' gv1'] fs'']. simpl in *. subst fs'' gv1'.
     destruct (cgood_rel _ _ _ (compile_rest_cgood fs' st1) B C) as [I' R'].
     split; auto. unfold HInv; simpl. split; [auto|split; [auto|split; [congruence|auto]]].
   - rewrite <- CE, <- GE. destruct (nlookup cid (codes m)) as [fs|]; [|split; [unfold HInv; auto|simpl; auto]].
     pose proof (good_set_out (ms m) []) as [T0 I0].
-    destruct (run_forms_sim n fs (set_out (ms m) []) (sft s) (mgv m) VNil (I0 I) (same_tabs_rel _ _ _ T0 R) G)
+    destruct (run_forms_sim n fs (set_out (ms m) []) (sft s) (mgv m) VNil (I0 I) (same_tabs_rel _ _ _ T0 R))
       as (rM & st' & EM & S1 & I' & R').
     simpl in EM, S1, R'. rewrite EM.
     destruct (run_formsS n (sft s) (mgv m) [] fs VNil) as [[[rS oS] ft'] gv']. simpl in *.
@@ -978,20 +923,19 @@ Proof.
     intros Cc. destruct (S1 Cc) as [-> ->]. reflexivity.
 Qed.
 
-Theorem history_refines_from : forall n ops m s, HInv m s -> guard_ops n m ops = true ->
+(* EVERY history refines S outcome by outcome (the statement refuted for the unrepaired code) *)
+Theorem history_refines_from : forall n ops m s, HInv m s ->
   Forall2 osim (runS n s ops) (runM n m ops).
 Proof.
-  intros n. induction ops as [|o r IH]; simpl; intros m s H G; [constructor|].
-  apply andb_true_iff in G. destruct G as [G1 G2].
-  destruct (step_sim n m s o H G1) as [H' OB].
+  intros n. induction ops as [|o r IH]; simpl; intros m s H; [constructor|].
+  destruct (step_sim n m s o H) as [H' OB].
   destruct (stepM n m o) as [m' obM]. destruct (stepS n s o) as [s' obS]. simpl in *.
-  specialize (IH m' s' H' G2).
+  specialize (IH m' s' H').
   destruct obS as [a|], obM as [b|]; try contradiction; simpl; auto.
 Qed.
 Lemma HInv_init : HInv minit sinit.
 Proof. split; [apply Inv_init|]. split; [intros f; reflexivity|split; reflexivity]. Qed.
-Theorem history_refines : forall n ops, guard_ops n minit ops = true ->
-  Forall2 osim (runS n sinit ops) (runM n minit ops).
+Theorem history_refines : forall n ops, Forall2 osim (runS n sinit ops) (runM n minit ops).
 Proof. intros. apply history_refines_from; auto. apply HInv_init. Qed.
 
 (* ---- consequences in property terms ---------------------------------------------------------------- *)
@@ -1031,13 +975,12 @@ Qed.
 (* redefinition between evaluations is seen by code that was already evaluated (and so compiled in place) *)
 Theorem late_binding : forall n st ft en e g ps body r0 st0 rS oS, Inv st -> Rel st ft ->
   evalM n st en e = (r0, st0) ->
-  g_defun st0 g ps body = true ->
   evalS n ((g, (ps, body)) :: ft) en (out st0) e = (rS, oS) -> comparable rS = true ->
   exists st1, evalM n (defunM st0 g ps body) en e = (rS, st1) /\ out st1 = oS.
 Proof.
-  intros n st ft en e g ps body r0 st0 rS oS I R E0 G E C.
+  intros n st ft en e g ps body r0 st0 rS oS I R E0 E C.
   pose proof (evalM_good n _ _ _ _ _ E0) as [T0 I0].
-  destruct (defunM_step st0 ft g ps body (I0 I) (same_tabs_rel _ _ _ T0 R) G) as (I1 & R1 & O1).
+  destruct (defunM_step st0 ft g ps body (I0 I) (same_tabs_rel _ _ _ T0 R)) as (I1 & R1 & O1).
   rewrite <- O1 in E.
   destruct (evalM_sim _ n _ en e rS oS I1 R1 E) as (rM & st1 & EM & [S1 _]).
   destruct (S1 C) as [-> O]. eauto.
@@ -1045,14 +988,6 @@ Qed.
 
 (* a call compiled before its function exists (placeholder) passes its arguments once the function exists:
    compile the form while g is unknown, define g, evaluate the compiled form = S with g's definition *)
-Lemma compiled_unknown_guarded : forall st e g ps body, Inv st -> slookup g (funcs st) = None ->
-  g_defun (compile_slot st e) g ps body = true.
-Proof.
-  intros st e g ps body I F. pose proof (compile_slot_cgood e st I) as C. unfold g_defun.
-  destruct (cg_new _ _ C g F) as [N|(p & l & F1 & L1 & _)].
-  - rewrite N. reflexivity.
-  - rewrite F1, L1, Nat.eqb_refl. reflexivity.
-Qed.
 Theorem forward_reference : forall n st ft en e g ps body rS oS, Inv st -> Rel st ft ->
   slookup g (funcs st) = None ->
   evalS n ((g, (ps, body)) :: ft) en (out st) e = (rS, oS) -> comparable rS = true ->
@@ -1061,7 +996,7 @@ Proof.
   intros n st ft en e g ps body rS oS I R F E C.
   pose proof (compile_slot_cgood e st I) as CG.
   destruct (cgood_rel _ _ ft (compile_slot_cgood e st) I R) as [I1 R1].
-  destruct (defunM_step _ ft g ps body I1 R1 (compiled_unknown_guarded st e g ps body I F)) as (I2 & R2 & O2).
+  destruct (defunM_step _ ft g ps body I1 R1) as (I2 & R2 & O2).
   rewrite <- (cg_out _ _ CG), <- O2 in E.
   destruct (evalM_sim _ n _ en e rS oS I2 R2 E) as (rM & st2 & EM & [S1 _]).
   destruct (S1 C) as [-> O]. eauto.
@@ -1097,7 +1032,7 @@ Theorem evalS_ext : forall ft ft', (forall f, slookup f ft = slookup f ft') ->
   forall n en o e, evalS n ft en o e = evalS n ft' en o e.
 Proof.
   intros ft ft' H. induction n as [|n IH]; intros en o e; simpl; auto.
-  destruct e as [z|x|id xs|gx]; auto. destruct xs as [|[z|f|i ys|gy] args]; auto.
+  destruct e as [z|x|id xs]; auto. destruct xs as [|[z|f|i ys] args]; auto.
   destruct (builtin_of f) as [b|].
   - destruct b; try (rewrite (eval_argsS_ext _ _ IH); reflexivity).
     + apply eval_seqS_ext; auto.
@@ -1150,26 +1085,24 @@ Proof. intros. apply evalS_ext. intros. apply deftab_order_independent; auto. Qe
 (* ---- the same at the level of M: a block of definitions of distinct names, in any order ------------- *)
 Fixpoint defunsM (st : state) (ds : list (string * def)) : state :=
   match ds with [] => st | (nm, (ps, body)) :: r => defunsM (defunM st nm ps body) r end.
-Fixpoint guard_defuns (st : state) (ds : list (string * def)) : bool :=
-  match ds with [] => true | (nm, (ps, body)) :: r => g_defun st nm ps body && guard_defuns (defunM st nm ps body) r end.
-Lemma defunsM_rel : forall ds st ft, Inv st -> Rel st ft -> guard_defuns st ds = true ->
+Lemma defunsM_rel : forall ds st ft, Inv st -> Rel st ft ->
   Inv (defunsM st ds) /\ Rel (defunsM st ds) (deftab ds ft) /\ out (defunsM st ds) = out st.
 Proof.
-  induction ds as [|[nm [ps body]] r IH]; simpl; intros st ft I R G; auto.
-  apply andb_true_iff in G. destruct G as [G1 G2].
-  destruct (defunM_step st ft nm ps body I R G1) as (I' & R' & O').
-  destruct (IH _ _ I' R' G2) as (A & B & C). split; [auto|split; [auto|congruence]].
+  induction ds as [|[nm [ps body]] r IH]; simpl; intros st ft I R; auto.
+  destruct (defunM_step st ft nm ps body I R) as (I' & R' & O').
+  destruct (IH _ _ I' R') as (A & B & C). split; [auto|split; [auto|congruence]].
 Qed.
+(* no guard hypothesis any more: whatever has been defined, called or compiled before (names of the block
+   included), after the block in either order every form evaluates to S's outcome *)
 Theorem order_independent_M : forall ds ds' st ft, Inv st -> Rel st ft ->
   Permutation ds ds' -> NoDup (map fst ds) ->
-  guard_defuns st ds = true -> guard_defuns st ds' = true ->
   forall n en e rS oS, evalS n (deftab ds ft) en (out st) e = (rS, oS) -> comparable rS = true ->
   exists st1 st2, evalM n (defunsM st ds) en e = (rS, st1) /\ evalM n (defunsM st ds') en e = (rS, st2) /\
                   out st1 = oS /\ out st2 = oS.
 Proof.
-  intros ds ds' st ft I R P ND G G' n en e rS oS E C.
-  destruct (defunsM_rel ds st ft I R G) as (I1 & R1 & O1).
-  destruct (defunsM_rel ds' st ft I R G') as (I2 & R2 & O2).
+  intros ds ds' st ft I R P ND n en e rS oS E C.
+  destruct (defunsM_rel ds st ft I R) as (I1 & R1 & O1).
+  destruct (defunsM_rel ds' st ft I R) as (I2 & R2 & O2).
   pose proof E as E'. rewrite (order_independent_S ds ds' ft P ND) in E'.
   rewrite <- O1 in E. rewrite <- O2 in E'.
   destruct (evalM_sim _ n _ en e rS oS I1 R1 E) as (r1 & st1 & EM1 & [S1 _]).
@@ -1177,71 +1110,15 @@ Proof.
   destruct (S1 C) as [-> ?]. destruct (S2 C) as [-> ?]. eauto 10.
 Qed.
 
-(* the guard holds by itself for a block of definitions of distinct names none of which has been defined
-   before (it may have been called before: a placeholder's creator holds the registered Lambda) *)
-Definition canon_or_new (st : state) (f : string) : Prop :=
-  match slookup f (funcs st) with None => True | Some s => slookup f (lambdas st) = Some s end.
-Lemma alloc_cg : forall st l, Inv st -> cg st (mkSt (heap st ++ [l]) (lambdas st) (funcs st) (marks st) (out st)).
-Proof.
-  intros st l I. constructor; simpl; auto.
-  - destruct I as [i1 i2 i3]. constructor; unfold hget; simpl.
-    + intros f s E. destruct (i1 _ _ E) as (c & l0 & ? & ? & ? & ?). exists c, l0.
-      repeat split; auto; apply nth_error_app_old; auto.
-    + intros id g a' N. destruct (i2 _ _ _ N) as (s & l0 & ? & ? & ? & ?). exists s, l0.
-      repeat split; auto; apply nth_error_app_old; auto.
-    + intros f c E. destruct (i3 _ _ E) as [S1 (l0 & ? & ?)]. split; auto. exists l0. split; auto.
-      apply nth_error_app_old; auto.
-  - unfold hget; simpl. intros. apply nth_error_app_old; auto.
-  - rewrite app_length; simpl; lia.
-Qed.
-Lemma defunM_canon_other : forall st nm ps body f, Inv st -> f <> nm -> canon_or_new st f ->
-  canon_or_new (defunM st nm ps body) f.
-Proof.
-  intros st nm ps body f I NE CN. unfold defunM.
-  set (newl := mkLam nm ps body false).
-  set (st1 := mkSt (heap st ++ [newl]) (lambdas st) (funcs st) (marks st) (out st)).
-  pose proof (alloc_cg st newl I) as C1. fold st1 in C1.
-  pose proof (fold_compile_cgood body st1 (cg_inv _ _ C1)) as C2.
-  set (st2 := fold_left compile_slot body st1) in *.
-  assert (Q : String.eqb f nm = false) by (apply String.eqb_neq; auto).
-  assert (CN2 : canon_or_new st2 f).
-  { unfold canon_or_new in *. destruct (slookup f (funcs st)) as [s|] eqn:F.
-    - rewrite (cg_funcs _ _ C2 _ _ (cg_funcs _ _ C1 _ _ F)).
-      apply (cg_lams _ _ C2). apply (cg_lams _ _ C1). auto.
-    - destruct (cg_new _ _ C2 f) as [N|(p & l & F2 & L2 & _)]; [exact F|rewrite N; auto|].
-      rewrite F2. auto. }
-  unfold canon_or_new in *.
-  destruct (slookup nm (lambdas st2)); simpl; rewrite Q; auto.
-Qed.
-Lemma fresh_defs_guarded : forall ds st ft, Inv st -> Rel st ft -> NoDup (map fst ds) ->
-  (forall f, In f (map fst ds) -> canon_or_new st f) -> guard_defuns st ds = true.
-Proof.
-  induction ds as [|[nm [ps body]] r IH]; simpl; intros st ft I R ND CN; auto.
-  inversion ND as [|? ? N1 N2]; subst.
-  assert (G1 : g_defun st nm ps body = true).
-  { unfold g_defun. pose proof (CN nm (or_introl eq_refl)) as C. unfold canon_or_new in C.
-    destruct (slookup nm (funcs st)) as [s|]; auto. rewrite C, Nat.eqb_refl. reflexivity. }
-  rewrite G1. simpl.
-  destruct (defunM_step st ft nm ps body I R G1) as (I' & R' & _).
-  apply (IH _ _ I' R' N2). intros f Hf. apply defunM_canon_other; auto.
-  intros ->. contradiction.
-Qed.
-(* in particular from the empty state: any order of a block of distinct definitions is inside the guard *)
-Corollary fresh_program_guarded : forall ds, NoDup (map fst ds) -> guard_defuns init ds = true.
-Proof.
-  intros ds ND. apply (fresh_defs_guarded ds init []); auto using Inv_init.
-  - intros f; reflexivity.
-  - intros f _. unfold canon_or_new. reflexivity.
-Qed.
-
-(* ---- refutations (the faithful model violates S outside the guard) and non-vacuity --------------- *)
+(* ---- repaired witnesses, non-vacuity ------------------------------------------------------------------ *)
 Open Scope string_scope.
 Definition dfn (id : nat) (name : string) (pid : nat) (ps : list string) (body : list sexp) : sexp :=
   SList id (SSym "defun" :: SSym name :: SList pid (map SSym ps) :: body).
 
-(* (defun f () (g)) (defun g () 1) (defun h () (g)) (defun g () 2) (h)
-   f is compiled before g exists (placeholder); g's creator then holds a Lambda that is not the registered
-   one; h's call of g is compiled with it; the second definition of g patches only the registered one *)
+(* the witnesses of the two repaired findings C08-stale-lambda (repo_fixes/C08-3), now inside the guard with M = S:
+   (defun f () (g)) (defun g () 1) (defun h () (g)) (defun g () 2) (h)
+   f is compiled before g exists (placeholder); g's first definition is taken over by the placeholder, which
+   stays the Lambda of every call compiled later (h's), so the second definition reaches them: 2 (was 1) *)
 Definition stale_ops : list op :=
   [OLoad 0 [dfn 1 "f" 2 [] [SList 3 [SSym "g"]];
             dfn 4 "g" 5 [] [SList 6 [SSym "progn"; SInt 1]];
@@ -1249,20 +1126,7 @@ Definition stale_ops : list op :=
             dfn 10 "g" 11 [] [SList 12 [SSym "progn"; SInt 2]];
             SList 13 [SSym "h"]];
    ORun 0].
-Lemma stale_lambda_witness :
-  guard_ops 50 minit stale_ops = false /\
-  runS 50 sinit stale_ops = [(Val (VInt 2), [])] /\
-  runM 50 minit stale_ops = [(Val (VInt 1), [])].
-Proof. vm_compute. auto. Qed.
-Theorem refinement_needs_guard_refuted :
-  ~ (forall n ops, Forall2 osim (runS n sinit ops) (runM n minit ops)).
-Proof.
-  intros H. specialize (H 50 stale_ops).
-  destruct stale_lambda_witness as (_ & S1 & M1). rewrite S1, M1 in H.
-  inversion H as [|? ? ? ? [O _] _]; subst. specialize (O eq_refl). discriminate.
-Qed.
-(* without a forward reference: two redefinitions are needed
-   (defun g () 1) (defun g () 2) (defun h () (g)) (defun g () 3) (h) *)
+(* without a forward reference: (defun g () 1) (defun g () 2) (defun h () (g)) (defun g () 3) (h): 3 (was 2) *)
 Definition stale_ops2 : list op :=
   [OLoad 0 [dfn 1 "g" 2 [] [SList 3 [SSym "progn"; SInt 1]];
             dfn 4 "g" 5 [] [SList 6 [SSym "progn"; SInt 2]];
@@ -1270,52 +1134,35 @@ Definition stale_ops2 : list op :=
             dfn 10 "g" 11 [] [SList 12 [SSym "progn"; SInt 3]];
             SList 13 [SSym "h"]];
    ORun 0].
-Lemma stale_lambda_witness2 :
-  guard_ops 50 minit stale_ops2 = false /\
-  runS 50 sinit stale_ops2 = [(Val (VInt 3), [])] /\
-  runM 50 minit stale_ops2 = [(Val (VInt 2), [])].
-Proof. vm_compute. auto. Qed.
-
-(* (nodef (emit 5)) compiled: the placeholder call evaluates its argument, then signals undefined-function;
-   (nodef (+ 1 (list 2))) compiled: the error in the argument masks undefined-function *)
-Definition undef_ops (arg : sexp) : list op := [OLoad 0 [SList 1 [SSym "nodef"; arg]]; OCompile 0; ORun 0].
-Lemma undefined_args_first_witness :
-  guard_ops 50 minit (undef_ops (SList 2 [SSym "emit"; SInt 5])) = true /\
-  runS 50 sinit (undef_ops (SList 2 [SSym "emit"; SInt 5])) = [(Err EUndefined, [])] /\
-  runM 50 minit (undef_ops (SList 2 [SSym "emit"; SInt 5])) = [(Err EUndefined, [VInt 5])] /\
-  runS 50 sinit (undef_ops (SList 2 [SSym "+"; SInt 1; SList 3 [SSym "list"; SInt 2]])) = [(Err EUndefined, [])] /\
-  runM 50 minit (undef_ops (SList 2 [SSym "+"; SInt 1; SList 3 [SSym "list"; SInt 2]])) = [(Err EType, [])].
+Example stale_lambda_repaired :
+  runM 50 minit stale_ops = [(Val (VInt 2), [])] /\ runS 50 sinit stale_ops = [(Val (VInt 2), [])] /\
+  runM 50 minit stale_ops2 = [(Val (VInt 3), [])] /\ runS 50 sinit stale_ops2 = [(Val (VInt 3), [])].
 Proof. vm_compute. auto 10. Qed.
-Theorem undefined_call_equal_refuted :
-  ~ (forall n ops, guard_ops n minit ops = true -> runM n minit ops = runS n sinit ops).
-Proof.
-  intros H. specialize (H 50 (undef_ops (SList 2 [SSym "emit"; SInt 5]))).
-  destruct undefined_args_first_witness as (G & S1 & M1 & _). rewrite S1, M1 in H. specialize (H G). discriminate.
-Qed.
 
-(* (defun f (x) v) (defun g (v) (f 0)) (defvar v 1) (g 5), the code object evaluated twice: when f is
-   defined the package has no variable v, so the body form becomes a reference to a newly created package
-   variable: f answers the package variable (1) although its caller binds v (5); the second evaluation of
-   the same defun finds the variable and leaves the symbol: 5 *)
+(* a call of a function that has no definition, in a code object that is compiled before it is evaluated
+   (witnesses of the lookup-time theorems in ProofsLate.v) *)
+Definition undef_ops (arg : sexp) : list op := [OLoad 0 [SList 1 [SSym "nodef"; arg]]; OCompile 0; ORun 0].
+
+(* the witness of the repaired finding C08-bare-symbol-body (repo_fixes/C08-4):
+   (defun f (x) v) (defun g (v) (f 0)) (defvar v 1) (g 5), the code object evaluated twice.  The body form v is
+   a variable reference looked up at call time: f sees its caller's binding (5), on the first evaluation as on
+   the second (the unrepaired code answered the package variable, 1, the first time) *)
 Definition bare_ops : list op :=
   [OLoad 0 [dfn 1 "f" 2 ["x"] [SSym "v"];
             dfn 3 "g" 4 ["v"] [SList 5 [SSym "f"; SInt 0]];
             SList 6 [SSym "defvar"; SSym "v"; SInt 1];
             SList 7 [SSym "g"; SInt 5]];
    ORun 0; ORun 0].
-Lemma bare_symbol_witness :
-  guard_ops 50 minit bare_ops = false /\
+(* (defun f (x) nov) (f 0): unbound-variable (the unrepaired code returned the marker object <unbound>) *)
+Definition bare_ops2 : list op :=
+  [OLoad 0 [dfn 1 "f" 2 ["x"] [SSym "nov"]; SList 3 [SSym "f"; SInt 0]]; ORun 0].
+Example bare_symbol_repaired :
   runS 50 sinit bare_ops = [(Val (VInt 5), []); (Val (VInt 5), [])] /\
-  runM 50 minit bare_ops = [(Val (VInt 1), []); (Val (VInt 5), [])].
+  runM 50 minit bare_ops = [(Val (VInt 5), []); (Val (VInt 5), [])] /\
+  runS 50 sinit bare_ops2 = [(Err EUnbound, [])] /\ runM 50 minit bare_ops2 = [(Err EUnbound, [])].
 Proof. vm_compute. auto. Qed.
-Theorem bare_body_symbol_refuted :
-  exists ops a b, runS 50 sinit ops = [a; a] /\ runM 50 minit ops = [b; a] /\ comparable (fst a) = true /\ a <> b.
-Proof.
-  exists bare_ops, (Val (VInt 5), []), (Val (VInt 1), []).
-  destruct bare_symbol_witness as (_ & S1 & M1). repeat split; auto. discriminate.
-Qed.
 
-(* non-vacuity: a guarded history with a forward reference (caller before callee), compilation, repeated
+(* non-vacuity: a history with a forward reference (caller before callee), compilation, repeated
    evaluation of the same code object, a redefinition between evaluations; all outcomes are values and
    M = S; the state has compiled slots and a patched placeholder *)
 Definition demo_ops : list op :=
@@ -1327,7 +1174,6 @@ Definition demo_ops : list op :=
    OLoad 2 [dfn 9 "caller" 10 ["a"] [SList 11 [SSym "callee"; SSym "a"; SInt 3]]];
    ORun 2; ORun 1].
 Example demo_guarded :
-  guard_ops 50 minit demo_ops = true /\
   runM 50 minit demo_ops = runS 50 sinit demo_ops /\
   runS 50 sinit demo_ops =
     [(Val (VSym "callee"), []);
@@ -1338,7 +1184,7 @@ Proof. vm_compute. auto. Qed.
 Definition demo_state : state := ms (fold_left (fun m o => fst (stepM 50 m o)) demo_ops minit).
 Example demo_state_nontrivial :
   List.length (marks demo_state) = 5 /\ List.length (heap demo_state) = 4 /\
-  slookup "callee" (lambdas demo_state) = Some 1 /\ slookup "callee" (funcs demo_state) = Some 2 /\
+  slookup "callee" (lambdas demo_state) = Some 1 /\ slookup "callee" (funcs demo_state) = Some 1 /\
   option_map l_place (nth_error (heap demo_state) 1) = Some false.
 Proof. vm_compute. auto 10. Qed.
 (* hypotheses of the expression-level theorems are satisfiable in that state *)
@@ -1347,11 +1193,9 @@ Example demo_inv : Inv demo_state /\ Rel demo_state
     ("callee", (["p"; "q"], [SList 6 [SSym "list"; SSym "p"; SList 7 [SSym "emit"; SSym "q"]]]));
     ("caller", (["a"], [SList 3 [SSym "callee"; SSym "a"; SInt 2]]))].
 Proof.
-  assert (H : forall ops m s, HInv m s -> guard_ops 50 m ops = true ->
+  assert (H : forall ops m s, HInv m s ->
      HInv (fold_left (fun m o => fst (stepM 50 m o)) ops m) (fold_left (fun s o => fst (stepS 50 s o)) ops s)).
-  { induction ops as [|o r IH]; simpl; intros m s Hm G; auto.
-    apply andb_true_iff in G. destruct G as [G1 G2]. apply IH; auto. apply step_sim; auto. }
-  destruct demo_guarded as (G & _).
-  destruct (H demo_ops minit sinit HInv_init G) as (I & R & _). split; [exact I|].
+  { induction ops as [|o r IH]; simpl; intros m s Hm; auto. apply IH; auto. apply step_sim; auto. }
+  destruct (H demo_ops minit sinit HInv_init) as (I & R & _). split; [exact I|].
   exact R.
 Qed.
